@@ -30,6 +30,6 @@ def main():
     chk = Check("C16")
     chk.mc("GF_small.cfg" if chk.thorough else "GF_q_small.cfg")
     chk.tv(groups(900 if chk.thorough else 96, chk.seed), "C16 sweep")
-    chk.replay_behaviours(num=250 if not chk.thorough else 2000)
+    chk.replay_behaviours(num=500 if not chk.thorough else 6000)
     return chk.finish(rule="MC over all policies x ynorm levels x filter histories + traced solves with all six policies and "
                            "starting multipliers spanning 1e-8..1e8")
